@@ -79,7 +79,11 @@ SPEC = {
                    "first 14 fails with ENOSPC or EIO (no lock-step then, oracles only, and a survivor's own failure is "
                    "not judged); after EVERY step the allocation limit read from the file must not exceed the file "
                    "length (class limit-beyond-file, theorem C04_limit_within_file); in the use phase the model follows "
-                   "the observed growth (whole pages only, header unchanged). distinct = distinct case lines"),
+                   "the observed growth (whole pages only, header unchanged). Seven hm cases (oracle only): a second PROGRAM "
+                   "opens the first one's counter file (same name) with metadata of another length (longer, shorter, by one "
+                   "byte) or of the same length and other content and, if it is admitted, records six counters: the first "
+                   "program's file must stay well formed and keep its four counters with their values. "
+                   "distinct = distinct case lines"),
     ],
     "technique": "Coq inductive invariant (rely/guarantee: shared well-formedness + per-process facts stable under "
                  "every action of every other process) of a transition system at atomic-operation granularity over "
